@@ -121,6 +121,28 @@ fn finding_offset(arch: Arch, case_address: u64, addr: u64) -> usize {
     }
 }
 
+/// one rendering of what translate_block returns for an input (IL text and successors, or
+/// "err", or "panic"), for comparing two lifts of the same input
+fn render_block(arch: Arch, bytes: &[u8], address: u64, intrinsics: bool) -> String {
+    let mut opts = Options::default();
+    opts.set_unsupported_are_intrinsics(intrinsics);
+    let t = arch.translator();
+    match catch(|| t.translate_block(bytes, address, &opts)) {
+        Err(_) => "panic".into(),
+        Ok(Err(_)) => "err".into(),
+        Ok(Ok(r)) => {
+            let mut s = format!("ok length={}", r.length());
+            for (a, g) in r.instructions() {
+                s.push_str(&format!("\n@{:x}\n{}", a, g));
+            }
+            for (a, c) in r.successors() {
+                s.push_str(&format!("\n-> {:x} if {}", a, c.as_ref().map(|c| c.to_string()).unwrap_or_default()));
+            }
+            s
+        }
+    }
+}
+
 pub fn execute(case: &Case) -> Outcome {
     let mut c = Counters::default();
     let mut states = BTreeSet::new();
@@ -215,6 +237,31 @@ pub fn execute(case: &Case) -> Outcome {
                         ),
                     ));
                 }
+            }
+        }
+        // "deterministic": the result is a function of (bytes, address, translator, options)
+        // and not of what this thread lifted before. One input in sixty-four is lifted again on a
+        // fresh thread - whose thread-local state, if the library keeps any, is empty - and
+        // the two renderings must agree.
+        if violation.is_none() && (bytes.iter().fold(case.address, |h, b| h.wrapping_mul(31).wrapping_add(*b as u64)) % 64 == 0) {
+            c.inc("checked.fresh-thread-lifts");
+            let here = render_block(arch, &bytes, case.address, case.intrinsics);
+            let (b2, a2, i2) = (bytes.clone(), case.address, case.intrinsics);
+            let there = std::thread::spawn(move || render_block(arch, &b2, a2, i2)).join().unwrap_or_else(|_| "panic".into());
+            if here != there {
+                let first = here.lines().zip(there.lines()).find(|(x, y)| x != y).map(|(x, y)| format!("'{}' vs '{}'", x, y)).unwrap_or_else(|| "different lengths".into());
+                violation = Some(Violation::new(
+                    "history-dependent-result",
+                    format!("family={} rule=history-dependent-result", arch.family()),
+                    format!(
+                        "{} translate_block({} @0x{:x}, {}) returns something else on this thread, which has lifted other inputs before, than on a fresh thread: {}",
+                        arch.name(),
+                        case.bytes,
+                        case.address,
+                        opt,
+                        first
+                    ),
+                ));
             }
         }
     } else {
